@@ -1,6 +1,6 @@
 #!/bin/sh
 # tools/run_preserving.sh [tier] — false-alarm regression: every change under
-# seeded/preserving/ alters behaviour but keeps all eleven claimed properties true, so every
+# seeded/preserving/ alters behaviour but keeps all claimed properties true (except those named in its expected_alarms file, if any), so every
 # check must stay at exit 0 with it applied (each is applied to /repo and undone again).
 ROOT="$(cd "$(dirname "$0")/.." && pwd)"
 TIER="${1:-quick}"
@@ -9,6 +9,10 @@ for d in "$ROOT"/seeded/preserving/*; do
     [ -f "$d/patch.diff" ] || continue
     res=$("$ROOT/tools/try_mutant.sh" "$d/patch.diff" "$TIER" 2>&1)
     alarms=$(echo "$res" | grep -E "rc=[12]" | awk '{print $1 ":" $2}' | tr '\n' ' ')
+    if [ -f "$d/expected_alarms" ]; then
+        # a change that keeps the other properties but is known to break the listed ones
+        for x in $(cat "$d/expected_alarms"); do alarms=$(echo "$alarms" | sed "s/$x:rc=1 //"); done
+    fi
     note=$(echo "$res" | grep -E "^try_mutant:" | head -1)
     echo "$(basename "$d"): ${alarms:-no alarm} $note"
     [ -n "$alarms" ] && bad=1
